@@ -235,3 +235,8 @@ OBLIGATIONS = [
 
 from harness.codownload import OB_DL, protocol_fixed as co_download_protocol  # noqa: E402
 OBLIGATIONS += [dict(OB_DL, id='C02.5', impl='co_download_protocol', cases_thorough=OB_DL['cases_thorough'], splits_thorough=OB_DL['splits'], cases=[('seekable', 3, -1), ('seekable', 4, -1)])]
+
+# the offset-addressed writes and the final rename rely on ONE IO worker running them in queue order, whatever the
+# configuration: the wiring obligation of C10 (limits as unbounded symbolic integers)
+from harness.c10 import OBLIGATIONS as _C10OBS, wiring  # noqa: E402
+OBLIGATIONS += [dict(o, id='C02.6') for o in _C10OBS if o['id'] == 'C10.1']
